@@ -41,6 +41,11 @@ package keeper
 //@ ghost pit.rank (Array Bytes Int)
 //@ ghost pit.pw (Array Iface (Array Int Int))
 //@ ghost nls.at (Array Bytes Int)
+//@ ghost hit.pos (Array Iface Int)
+//@ ghost hit.last Iface
+//@ ghost hit.len (Array Iface Int)
+//@ ghost hit.key (Array Iface (Array Int $[]byte))
+//@ ghost hit.val (Array Iface (Array Int $[]byte))
 //@ ghost pit.mpos (Array Iface (Array Int Int))
 //@ ghost uq.slot (Array Iface (Array Int Int))
 //@ ghost uq.posin (Array Iface (Array Bytes Int))
@@ -165,6 +170,18 @@ package keeper
 //@   mode value
 //@   modifies pos.prevtotal
 //@   ensures pos.prevtotal == val(power)
+// C05 (heap mode): the map built from the previous-state iterator has, for every entry, the key bytes 1..20 as its
+// [20]byte key and a private copy of the value (no entry shares memory with the iterator's buffers), and nothing else.
+//@ func (k Keeper) getPrevStatePowerMap(ctx sdk.Ctx) (r valPowerMap)
+//@   props C05
+//@   mode heap
+//@   modifies hit.pos, hit.len, hit.last
+//@   loop 1 frame
+//@   loop 1 decreases hit.len[iterator] - hit.pos[iterator]
+//@   loop 1 invariant 0 <= hit.pos[iterator] && hit.pos[iterator] <= hit.len[iterator] && fresh(prevState) && !isnil(prevState) && hit.last == iterator
+//@   loop 1 invariant forall i int :: 0 <= i && i < hit.pos[iterator] ==> (exists a ByteArr :: has(prevState, a) && fresh(prevState[a]) && (forall b int :: 0 <= b && b < 20 ==> a[b] == hit.key[iterator][i][1 + b]))
+//@   ensures [fresh] fresh(r) && !isnil(r)
+//@   ensures [entries] forall i int :: 0 <= i && i < hit.len[hit.last] ==> (exists a ByteArr :: has(r, a) && fresh(r[a]) && (forall b int :: 0 <= b && b < 20 ==> a[b] == hit.key[hit.last][i][1 + b]))
 // a fresh Go map: [20]byte(address) -> amino(power) for every previous-state entry
 //@ assumed func (k Keeper) getPrevStatePowerMap(ctx sdk.Ctx) (r valPowerMap)
 //@   mode value
